@@ -127,6 +127,72 @@ def gen_history(rng, profile='small', ntx=None):
     return hist
 
 
+WIDE_OIDS = [1, 2, 0xff, 0x100, 0xffff, 0x10000, 0x10001, 0xff00ff, 2 ** 32, 2 ** 48 - 1, 2 ** 48, 2 ** 63,
+             2 ** 63 + 0xff00, 2 ** 64 - 2, 2 ** 64 - 1, 0x0100000000000000, 0xffff0000ffff0000]
+
+
+def gen_wide_history(rng):
+    """the less-travelled dimensions: storage built through ZODB.config / create= / quota= / blob_dir=,
+    oids in many index buckets with 0x00/0xff bytes and the high bit, empty transactions at every place,
+    two undo records / two stores per oid in one transaction, faults (EIO/ENOSPC) at a raw operation of
+    vote or finish followed by a retry of the same transaction, a rival committer between store and vote"""
+    hist = gen_history(rng, 'small', ntx=rng.choice([3, 4, 5, 6, 8]))
+    pool = rng.sample(WIDE_OIDS, rng.choice([3, 4, 6]))
+    remap = {}
+    for t in hist:
+        for op in t['ops']:
+            if op[0] != 'undo':
+                op[1] = remap.setdefault(op[1], pool[len(remap) % len(pool)])
+    # empty transactions: first, in the middle, last
+    for pos in rng.sample(range(len(hist)), min(len(hist), rng.choice([1, 2, 3]))) + [rng.choice([0, len(hist) - 1])]:
+        hist[pos]['ops'] = []
+        hist[pos]['kind'] = 'commit'
+        if rng.random() < 0.5:
+            hist[pos]['user'] = hist[pos]['desc'] = hist[pos]['ext'] = ['f', 0, 0]     # tl == 23 exactly
+    commits = [t for t in hist if t['kind'] == 'commit' and t['ops']]
+    for t in rng.sample(commits, min(len(commits), 2)):
+        q = rng.random()
+        if q < 0.4:
+            t['ops'] = [['undo', 1], ['undo', 2]] + t['ops'][:1]      # two undo records (maybe of one oid)
+            t['status'] = ' '
+        elif q < 0.7 and t['ops'][0][0] == 'store':
+            t['ops'] = [t['ops'][0], ['store', t['ops'][0][1], ['f', rng.randrange(1, 90), rng.randrange(256)]]] + t['ops'][1:]
+    for t in hist:
+        if t['kind'] == 'commit' and rng.random() < 0.3:
+            t['fault'] = dict(at=rng.choice([1, 2, 2, 3, 3, 4, 4, 5, 6]), errno=rng.choice(['EIO', 'ENOSPC']))
+        elif rng.random() < 0.12:
+            t['rival'] = True
+    if not any(t.get('rival') for t in hist) and rng.random() < 0.6:
+        rng.choice(hist)['rival'] = True
+    hist[0]['opts'] = dict(via=rng.choice(['direct', 'config', 'config']), create=rng.random() < 0.4,
+                           quota=rng.choice([None, 10 ** 9, 10 ** 9, 2500]), blob_dir=rng.random() < 0.4)
+    return hist
+
+
+def boundary_histories():
+    """deterministic boundary cases that every run executes: empty transactions (tl == header length, with
+    and without metadata) first / between / last, metadata at the 65535 limit next to an empty transaction,
+    records over 64 KiB after a larger transaction (utils.cp chunking, stale bytes in Data.fs.tmp), extreme oids"""
+    B = TID_BASE + 0x7000
+
+    def txn(i, ops, kind='commit', meta=(0, 0, 0), **kw):
+        d = dict(kind=kind, tid=B + i * 0x100, status=' ', user=['f', meta[0], 11], desc=['f', meta[1], 22],
+                 ext=['f', meta[2], 33], ops=ops, save_index=False)
+        d.update(kw)
+        return d
+    empties = [txn(1, []), txn(2, [['store', 2 ** 64 - 1, ['f', 5, 1]], ['store', 0, ['f', 1, 2]]]),
+               txn(3, [], meta=(0, 7, 0)), txn(4, [], kind='abort_after'), txn(5, [['delete', 2 ** 64 - 1]], save_index=True),
+               txn(6, [['undo', 1], ['undo', 2]]), txn(7, [])]
+    limits = [txn(1, [['store', 2 ** 63, ['f', 3, 9]]], meta=(65535, 65535, 65535)), txn(2, [], meta=(0, 65535, 0)),
+              txn(3, [['restore', 2 ** 63, ['f', 3, 9], True], ['restore', 0xff00ff, None, False]], meta=(1, 0, 65535)),
+              txn(4, [])]
+    huge = [txn(1, [['store', 1, ['f', 150000, 3]], ['store', 0x10000, ['f', 70000, 4]]]),
+            txn(2, [['store', 1, ['f', 66000, 5]]], kind='abort_after'),
+            txn(3, [['store', 2, ['f', 65537, 6]], ['store', 1, ['f', 9, 7]]]),
+            txn(4, [['store', 2, ['f', 40, 8]]])]
+    return [('boundary-empty', empties), ('boundary-limits', limits), ('boundary-huge', huge)]
+
+
 # ---------------------------------------------------------------- real execution
 class RealRun:
     """Result of executing a history on the real FileStorage under the recording VFS."""
@@ -156,24 +222,69 @@ class _TfileProxy:
 UNKNOWN = object()
 
 
+def storage_options(hist):
+    """non-default ways to build the storage, carried by the first transaction dict of a history:
+    {'via': 'direct'|'config', 'create': bool, 'quota': int|None, 'blob_dir': bool}"""
+    return (hist[0].get('opts') if hist else None) or {}
+
+
+def open_storage(path, opts, first=False, read_only=False):
+    """FileStorage through the constructor or through a ZODB.config <filestorage> section"""
+    from ZODB.FileStorage import FileStorage
+    blob_dir = os.path.join(os.path.dirname(path), 'blobs') if opts.get('blob_dir') else None
+    create = bool(opts.get('create')) and first and not read_only
+    if opts.get('via') == 'config':
+        import ZODB.config
+        lines = ['<filestorage>', '  path %s' % path, '  read-only %s' % ('true' if read_only else 'false'),
+                 '  create %s' % ('true' if create else 'false')]
+        if opts.get('quota'):
+            lines.append('  quota %d' % opts['quota'])
+        if blob_dir:
+            lines.append('  blob-dir %s' % blob_dir)
+        return ZODB.config.storageFromString('\n'.join(lines + ['</filestorage>', '']))
+    kw = {}
+    if opts.get('quota'):
+        kw['quota'] = opts['quota']
+    if blob_dir:
+        kw['blob_dir'] = blob_dir
+    if create:
+        kw['create'] = True
+    if read_only:
+        kw['read_only'] = True
+    return FileStorage(path, **kw)
+
+
 def run_history(hist, root, pack_after=None, keep_open=False, referencesf=None, existing=False,
                 fsync_fault_at=None, live_reads=True):
-    """Execute `hist` on a fresh FileStorage at root/Data.fs under vfs recording.
-    Returns RealRun with: init (directory image after creation), events (since creation), committed
-    (list of txn indices whose tpc_finish returned), outcome per txn, final (Data.fs bytes),
-    index_snaps (list of (event_index, bytes) of every Data.fs.index version seen)."""
-    from ZODB.FileStorage import FileStorage
+    """Execute `hist` on a FileStorage at root/Data.fs under vfs recording (fresh, or `existing`: continue on
+    what is there).  Returns RealRun with: init (directory image after the open), events (since then),
+    committed (indices of the transactions that are in the file, in file order), outcome per transaction,
+    final (Data.fs bytes), live_violations, …
+
+    A transaction dict may carry
+      'fault': {'at': j, 'errno': 'EIO'|'ENOSPC'}  the j-th raw operation (write/truncate/fsync on any file)
+               issued by its tpc_vote + tpc_finish raises; the harness then aborts (or, when the failure path
+               closed the storage, reopens it) and RETRIES the same transaction once, without fault;
+      'rival': True  while it is between its stores and its vote a second thread calls tpc_begin for another
+               transaction (which has to wait for the commit lock and is aborted afterwards)."""
+    import errno
+    import threading
     from ZODB.Connection import TransactionMetaData
-    from ZODB.POSException import POSKeyError, UndoError, ConflictError
+    from ZODB.POSException import POSKeyError, UndoError, ConflictError, StorageError
     os.makedirs(root, exist_ok=True)
     rec = vfs.Recorder(root)
     rr = RealRun()
     rr.root = root
     rr.committed, rr.outcome, rr.issued = [], [], []
+    rr.no_model = False
+    rr.fault_notes = []
+    opts = storage_options(hist)
+    if opts:
+        rr.no_model = bool(opts.get('create') or opts.get('quota'))
     path = os.path.join(root, 'Data.fs')
     with vfs.install(rec):
         try:
-            fs = FileStorage(path)
+            fs = open_storage(path, opts, first=not existing)
         except Exception as e:
             rr.open_error = ename(e) + ' ' + str(e)[:200]
             raise
@@ -181,7 +292,6 @@ def run_history(hist, root, pack_after=None, keep_open=False, referencesf=None, 
         n0 = len(rec.events)
         cur = {}          # oid -> tid of its last committed record
         last_data = {}    # oid -> (txn tid, data) of its last committed store/restore with data
-        committed_tids = []
         undoable = []     # tids of committed transactions with status ' '
         rr.fsync_fault = None
         rr.live_violations = []      # reads through the LIVE storage that did not show the committed state
@@ -189,8 +299,11 @@ def run_history(hist, root, pack_after=None, keep_open=False, referencesf=None, 
         state = {}                   # oid -> committed bytes | None (does not exist) | UNKNOWN
         bp_revs = []                 # (oid, tid) of committed back-pointer records (undo / restore with prev_txn)
         recency = []                 # oids, least recently committed first (~ ascending file position)
-        if live_reads and isinstance(getattr(fs, '_tfile', None), object) and fs._tfile is not None:
-            fs._tfile = _TfileProxy(fs._tfile)
+
+        def wrap_tfile():
+            if live_reads and getattr(fs, '_tfile', None) is not None and not isinstance(fs._tfile, _TfileProxy):
+                fs._tfile = _TfileProxy(fs._tfile)
+        wrap_tfile()
 
         def live_check(when, oids):
             """load() through the read-file pool must show exactly the last COMMITTED revision"""
@@ -210,17 +323,20 @@ def run_history(hist, root, pack_after=None, keep_open=False, referencesf=None, 
                                                    % (u64(o), len(want))))
                 except Exception as e:
                     rr.live_violations.append((when, 'load(%x) raised %s' % (u64(o), ename(e))))
+
+        def adopt_existing():
+            for okey, opos in list(fs._index.items()):
+                cur.setdefault(okey, fs._read_data_header(opos, okey).tid)
+            it = fs.iterator()
+            tids_ = [x.tid for x in it if x.status == ' ']
+            it.close()
+            return tids_
         if existing:
             # continue on a data file that already holds transactions (reopened after a crash)
-            for okey, opos in list(fs._index.items()):
-                cur[okey] = fs._read_data_header(opos, okey).tid
-            it = fs.iterator()
-            undoable = [x.tid for x in it if x.status == ' ']
-            it.close()
-        for k, t in enumerate(hist):
-            rec.mark('begin %d' % k)
-            tid = p64(t['tid'])
-            md = TransactionMetaData(spec_bytes(t['user']), spec_bytes(t['desc']), spec_bytes(t['ext']))
+            undoable = adopt_existing()
+
+        def execute_ops(md, tid, t):
+            """tpc_begin + the operations of t.  Returns (pending, pdata, failed, issued)"""
             fs.tpc_begin(md, tid=tid, status=t['status'])
             pending, pdata, failed, issued = {}, {}, False, []
             for op in t['ops']:
@@ -260,19 +376,75 @@ def run_history(hist, root, pack_after=None, keep_open=False, referencesf=None, 
                             pending[o] = tid
                             pdata.pop(o, None)
                             issued.append(('undo', u64(o), None))
-                except (UndoError, POSKeyError, ConflictError):
+                except (UndoError, POSKeyError, ConflictError, StorageError):
                     failed = True
                     break
-            kind = t['kind']
-            if failed or kind == 'abort_before':
-                fs.tpc_abort(md)
-                rec.mark('aborted %d' % k)
-                rr.outcome.append('abort_before' if not failed else 'op_failed')
-            else:
+            return pending, pdata, failed, issued
+
+        def publish(k, t, tid, pending, pdata, issued, returned):
+            """bookkeeping of a transaction that is in the file"""
+            rr.committed.append(k)
+            rr.issued.append(issued)
+            cur.update(pending)
+            for o in pending:
+                if o in pdata:
+                    last_data[o] = pdata[o]
+                else:
+                    last_data.pop(o, None)
+            if t['status'] == ' ':
+                undoable.append(tid)
+            for kind_, o_, data_ in issued:
+                o_ = p64(o_)
+                state[o_] = data_ if kind_ == 'data' else (None if kind_ == 'del' else UNKNOWN)
+            for op in t['ops']:
+                if op[0] == 'undo':
+                    bp_revs.extend((o_, tid) for o_ in pending if state.get(o_) is UNKNOWN)
+                elif op[0] == 'restore' and op[3]:
+                    o_ = p64(op[1])
+                    if state.get(o_, UNKNOWN) not in (UNKNOWN, None):
+                        bp_revs.append((o_, tid))
+            for o_ in pending:
+                if o_ in recency:
+                    recency.remove(o_)
+                recency.append(o_)
+
+        for k, t in enumerate(hist):
+            rec.mark('begin %d' % k)
+            tid = p64(t['tid'])
+            fault = t.get('fault') if t['kind'] == 'commit' else None
+            attempts = 0
+            while True:
+                attempts += 1
+                md = TransactionMetaData(spec_bytes(t['user']), spec_bytes(t['desc']), spec_bytes(t['ext']))
+                pending, pdata, failed, issued = execute_ops(md, tid, t)
+                kind = t['kind']
+                rival = None
+                if t.get('rival') and attempts == 1:
+                    # another committer arrives while this one is between its stores and its vote
+                    rr.no_model = rr.no_model
+                    mdb = TransactionMetaData(b'', b'rival', b'')
+
+                    def rival_body(mdb=mdb):
+                        try:
+                            fs.tpc_begin(mdb)
+                            fs.tpc_abort(mdb)
+                        except Exception:
+                            pass
+                    rival = threading.Thread(target=rival_body, daemon=True)
+                    rival.start()
+                    rival.join(0.1)             # unchanged code: waits for the commit lock, touches nothing
+                    rec.mark('rival begun %d' % k)
+                if failed or kind == 'abort_before':
+                    fs.tpc_abort(md)
+                    rec.mark('aborted %d' % k)
+                    rr.outcome.append('abort_before' if not failed else 'op_failed')
+                    if rival:
+                        rival.join(5)
+                    break
                 readers = []
-                if live_reads and bp_revs and rr.reader_interleavings < 2 and isinstance(fs._tfile, _TfileProxy):
+                if live_reads and bp_revs and rr.reader_interleavings < 2 and isinstance(fs._tfile, _TfileProxy) \
+                        and not fault:
                     # a second thread asks for a back-pointer revision while this vote is between its writes
-                    import threading
                     boid, btid = bp_revs[-1]
 
                     def sync(boid=boid, btid=btid):
@@ -287,25 +459,55 @@ def run_history(hist, root, pack_after=None, keep_open=False, referencesf=None, 
                         readers.append(th)
                     fs._tfile.__dict__['_hook'] = sync
                     rr.reader_interleavings += 1
-                fs.tpc_vote(md)
-                if isinstance(fs._tfile, _TfileProxy):
+                fired = []
+                if fault and attempts == 1:
+                    rr.no_model = True
+                    code = getattr(errno, fault.get('errno', 'EIO'))
+                    cnt = [0]
+
+                    def hook(ev, code=code, j=fault['at']):
+                        if ev[0] in ('write', 'trunc', 'fsync'):
+                            cnt[0] += 1
+                            if cnt[0] == j:
+                                rec.on_event = None
+                                fired.append(ev[:3])
+                                rec.events.append(('mark', 'fault in %d at raw op %d: %s %s' % (k, j, ev[0], ev[1])))
+                                raise OSError(code, 'vfs injected fault')
+                    rec.on_event = hook
+                vote_error = finish_error = None
+                try:
+                    fs.tpc_vote(md)
+                except OSError as e:
+                    if not fired:
+                        raise
+                    vote_error = e
+                if isinstance(getattr(fs, '_tfile', None), _TfileProxy):
                     fs._tfile.__dict__['_hook'] = None
                 for th in readers:
                     th.join(5)
+                if vote_error is not None:
+                    rec.on_event = None
+                    fs.tpc_abort(md)
+                    rec.mark('aborted %d' % k)
+                    rr.fault_notes.append('txn %d: fault at %s raised by tpc_vote, aborted, retried' % (k, fired[0]))
+                    if rival:
+                        rival.join(5)
+                    continue                    # retry the same transaction
                 rec.mark('voted %d' % k)
                 if live_reads:
-                    # reads while the transaction is voted but not finished see the committed state only
                     # newest record first, then older ones: the pooled handle has to refill its read-ahead
                     # buffer (which then holds the voted bytes behind the committed end) whenever possible
                     live_check('while transaction %d is voted' % k, [o for o in reversed(recency) if o in cur][:5])
                 if kind == 'abort_after':
+                    rec.on_event = None
                     fs.tpc_abort(md)
                     rec.mark('aborted %d' % k)
                     rr.outcome.append('abort_after')
-                elif fsync_fault_at == k:
+                    if rival:
+                        rival.join(5)
+                    break
+                if fsync_fault_at == k:
                     # fault injection: the fsync of Data.fs issued by this tpc_finish raises EIO
-                    import errno
-
                     def boom(ev):
                         if ev[0] == 'fsync' and ev[1] == 'Data.fs':
                             rec.on_event = None
@@ -321,45 +523,49 @@ def run_history(hist, root, pack_after=None, keep_open=False, referencesf=None, 
                     rec.on_event = None
                     rr.outcome.append('fsync_fault')
                     break
-                else:
+                try:
                     fs.tpc_finish(md)
+                except Exception as e:
+                    if not fired:
+                        raise
+                    finish_error = e
+                rec.on_event = None
+                if rival:
+                    rival.join(5)
+                if finish_error is None:
+                    if fired:
+                        # a raw operation of this tpc_finish failed, yet it returned normally
+                        rr.fault_notes.append('RETURNED-DESPITE-FAULT txn %d: %s failed with %s but tpc_finish returned'
+                                              % (k, fired[0], fault.get('errno', 'EIO')))
+                        rr.returned_despite_fault = (k, fired[0])
                     rec.mark('ret finish %d' % k)
-                    rr.outcome.append('commit')
-                    rr.committed.append(k)
-                    rr.issued.append(issued)
-                    committed_tids.append(tid)
-                    cur.update(pending)
-                    for o in pending:
-                        if o in pdata:
-                            last_data[o] = pdata[o]
-                        else:
-                            last_data.pop(o, None)
-                    if t['status'] == ' ':
-                        undoable.append(tid)
-                    for kind_, o_, data_ in issued:
-                        o_ = p64(o_)
-                        if kind_ == 'data':
-                            state[o_] = data_
-                        elif kind_ == 'del':
-                            state[o_] = None
-                        else:
-                            state[o_] = UNKNOWN
-                    for op in t['ops']:
-                        if op[0] == 'undo':
-                            bp_revs += [(o_, tid) for o_ in pending if state.get(o_) is UNKNOWN]
-                        elif op[0] == 'restore' and op[3]:
-                            o_ = p64(op[1])
-                            if state.get(o_, UNKNOWN) not in (UNKNOWN, None):
-                                bp_revs.append((o_, tid))
-            if live_reads and rr.outcome and rr.outcome[-1] == 'commit':
-                for o_ in pending:
-                    if o_ in recency:
-                        recency.remove(o_)
-                    recency.append(o_)
+                    rr.outcome.append('commit' if attempts == 1 else 'commit_after_retry')
+                    publish(k, t, tid, pending, pdata, issued, True)
+                    break
+                # tpc_finish raised: its failure path closed the storage; go on with a reopened one
+                rec.mark('finish failed %d' % k)
+                try:
+                    fs.close()
+                except Exception:
+                    pass
+                fs = open_storage(path, opts)
+                wrap_tfile()
+                it = fs.iterator()
+                present = tid in [x.tid for x in it]
+                it.close()
+                rr.fault_notes.append('txn %d: fault at %s raised by tpc_finish, storage reopened, transaction %s'
+                                      % (k, fired[0], 'is in the file' if present else 'is not in the file: retried'))
+                if present:
+                    rr.outcome.append('in_file_not_returned')
+                    publish(k, t, tid, pending, pdata, issued, False)
+                    break
+                # not in the file: retry
             if live_reads and rr.outcome and rr.outcome[-1] != 'fsync_fault' and (k % 2 == 1 or k == len(hist) - 1):
                 # (only after every other transaction, oldest record first: so that the first read after a
                 # commit sometimes happens inside the next voted window, and the buffer ends up at the end)
                 live_check('after transaction %d (%s)' % (k, rr.outcome[-1]), [o for o in recency if o in cur][-6:])
+            if rr.outcome and rr.outcome[-1] == 'fsync_fault':
+                break
             if t.get('save_index'):
                 fs._save_index()
                 rec.mark('saved index %d' % k)
@@ -486,6 +692,12 @@ def ename(e):
     return 'err:' + type(e).__name__
 
 
+def _dg(b):
+    """fast digest of record data for dumps (fnv64 in pure Python is for model comparison only)"""
+    import hashlib
+    return hashlib.blake2b(bytes(b), digest_size=8).hexdigest()
+
+
 def dump_storage(fs, oids, tids):
     """ALL queries: iterator with records, load / loadBefore at every tid boundary / loadSerial /
     history for every oid, lastTransaction, _pos, len, max oid.  JSON-able, canonical."""
@@ -496,7 +708,8 @@ def dump_storage(fs, oids, tids):
         for t in it:
             recs = []
             for r in t:
-                recs.append([u64(r.oid), u64(r.tid), None if r.data is None else r.data.hex()])
+                recs.append([u64(r.oid), u64(r.tid), None if r.data is None else (r.data.hex() if len(r.data) <= 256
+                                                                                  else 'len %d %s' % (len(r.data), _dg(r.data)))])
             txs.append([u64(t.tid), t.status, bytes(t.user).hex(), bytes(t.description).hex(),
                         bytes(t.extension_bytes).hex(), recs])
         it.close()
@@ -509,21 +722,21 @@ def dump_storage(fs, oids, tids):
         key = '%016x' % o
         try:
             data, serial = fs.load(oid, '')
-            d['load ' + key] = [data.hex(), u64(serial)]
+            d['load ' + key] = [data.hex() if len(data) <= 256 else 'len %d %s' % (len(data), _dg(data)), u64(serial)]
         except Exception as e:
             d['load ' + key] = ename(e)
         lb = []
         for b in bounds:
             try:
                 r = fs.loadBefore(oid, p64(b))
-                lb.append(None if r is None else [fnv64(r[0]), u64(r[1]), None if r[2] is None else u64(r[2])])
+                lb.append(None if r is None else [_dg(r[0]), u64(r[1]), None if r[2] is None else u64(r[2])])
             except Exception as e:
                 lb.append(ename(e))
         d['loadBefore ' + key] = lb
         ls = []
         for t in tids:
             try:
-                ls.append(fnv64(fs.loadSerial(oid, p64(t))))
+                ls.append(_dg(fs.loadSerial(oid, p64(t))))
             except Exception as e:
                 ls.append(ename(e))
         d['loadSerial ' + key] = ls
@@ -551,7 +764,7 @@ def dump_storage(fs, oids, tids):
         cur, nxt, n = [], None, 0
         while n < 1000:
             oid, tid, data, nxt = fs.record_iternext(nxt)
-            cur.append([u64(oid), u64(tid), fnv64(data)])
+            cur.append([u64(oid), u64(tid), _dg(data)])
             n += 1
             if nxt is None:
                 break
